@@ -575,6 +575,31 @@ def arch_deadend(ctx, families=None, mean_units=None):
     return MolAst([s], arch="deadend")
 
 
+def arch_listblock(ctx, families=None, mean_units=None):
+    """two stochastic objects written directly next to each other (no connector): every growing descriptor of the first carries an explicit
+    transition list, the second has a plain left terminal, another number of descriptors and is closed by end groups.  The descriptor handed
+    over by the first object must be judged by the second object's left terminal, not by the list it carried inside the first"""
+    from .ref.compat import compat
+
+    r = ctx.rng
+    u1 = [ctx.unit([ctx.lt(), ctx.gt()]) for _ in range(r.choice([1, 2, 2]))]
+    lt, rt = ctx.gt(), ctx.lt()
+    s1 = StochAst(D(lt.sym, lt.id), D(rt.sym, rt.id), u1, [], _dist_for(ctx, u1, mean_units or r.choice([1.5, 3]), families=families))
+    u2 = [ctx.unit([ctx.lt(), ctx.gt()])]
+    ends = [ctx.end(ctx.lt())]
+    if r.random() < 0.4:
+        ends.append(ctx.end(ctx.lt(weight=ctx.weight())))
+    s2 = StochAst(D(lt.sym, lt.id), D(""), u2, ends, _dist_for(ctx, u2, mean_units or r.choice([1.5, 3]), families=families))
+    descs = s1.all_descs()
+    for d, kind, ti, a in descs:
+        if kind != "repeat" or not compat(d.triple, s1.right.triple):
+            continue
+        lst = [float(r.choice([1, 2, 3, 0.5])) if (compat(d.triple, o.triple) and okind == "repeat") else 0.0 for o, okind, _, _ in descs]
+        if sum(lst) > 0:
+            d.weight = lst
+    return MolAst([ctx.plain(), s1, s2], arch="listblock")
+
+
 def arch_lists(ctx, families=None, mean_units=None):
     """(10) explicit transition lists (optionally addressing end groups)"""
     from .ref.compat import compat
